@@ -245,7 +245,17 @@ def run(ctx):
             bad = [e for p in paths for e in p.events if e.loops and e.kind in ("READ", "WRITE", "SEEK", "READALL", "RAWIO", "TELL") and e.a.get("stream") == STREAM]
             subs = [e for p in paths for e in p.events if e.loops and e.kind == "SUB" and e.a.get("stream") == STREAM]
             ctx.ob("C03.R3", fi, not bad and bool(subs), "%s.%s touches the stream only through its members (plain concatenation)" % (cls, meth), key="%s %s concat" % (cls, meth))
-    ctx.floor("C03.R3", 8)
+    # the member list itself is in declaration order: positional members first, then keyword members in the order given
+    for cls in ("Struct", "Sequence", "FocusedSeq", "Union", "LazyStruct"):
+        fi, paths = own_method_paths(ctx, cls, "__init__")
+        w = {N.canon_lids(e["value"]) for p in paths for e in p.events if e.kind == "SELFWRITE" and e["attr"] == "subcons"}
+        sc, kw = ("param", "*subcons"), ("param", "**subconskw")
+        lst = lambda x: ("call", ("free", "list"), (x,), ())
+        named = ("comp", "gen", ("bin", "/", ("key", kw, 0), ("val", kw, 0)), ((("call", ("attr", kw, "items"), (), ()), ()),), (0,))
+        named_l = ("comp", "list", named[2], named[3], named[4])
+        ok = len(w) == 1 and next(iter(w)) in (("concat", lst(sc), lst(named)), ("concat", lst(sc), named_l))
+        ctx.ob("C03.R3", fi, ok, "%s keeps its members as list(positional) + [name/member for name, member in keywords]: declaration order" % cls, key="%s member list" % cls)
+    ctx.floor("C03.R3", 13)
 
     # ---------------------------------------------------------------- R4
     isint = ("call", ("free", "isinstance"), (OBJ, ("free", "int")), ())
@@ -327,6 +337,8 @@ def run(ctx):
     from . import C08
     fi, paths = own_method_paths(ctx, "NullTerminated", "_parse")
     C08.null_terminated(ctx, fi, paths, "C03.R5")
+    fi, paths = own_method_paths(ctx, "NullStripped", "_parse")
+    C08.null_stripped(ctx, fi, paths, "C03.R5")       # only bytes compared equal to the pad are stripped (multi-byte pads included)
     fi, paths = own_method_paths(ctx, "NullTerminated", "_build")
     ok = len(paths) == 1
     if ok:
@@ -344,6 +356,8 @@ def run(ctx):
 
     from .. import interval
     interval.leb128_obligations(ctx, "C03.R7")
+    from . import C10_helpers
+    C10_helpers.zigzag(ctx, "C03.R7")
 
     # positive control
     ctl_src = "class FormatField(object):\n    def __init__(self, endianity, format):\n        pass\ndef singleton(f):\n    return f()\n@singleton\ndef Int16sl():\n    return FormatField('<', 'H')\n"
